@@ -5,11 +5,13 @@ import (
 	"crypto"
 	"crypto/sha256"
 	"debug/pe"
+	"encoding/binary"
 	"fmt"
 	"hash/crc32"
 	"io"
 	"os"
 	"path/filepath"
+	"sort"
 	"strings"
 	"time"
 
@@ -134,6 +136,196 @@ func c01Session(cs Case, img, pre []byte, fail func(what, goObs, spec, matcher s
 	}
 }
 
+// c01Algs: the algorithms a caller asks for, in an order chosen by k
+func c01Algs(k uint32) []crypto.Hash {
+	algs := []crypto.Hash{crypto.SHA256, crypto.SHA1, crypto.SHA384, crypto.SHA512}
+	for i := len(algs) - 1; i > 0; i-- {
+		j := int(k % uint32(i+1))
+		k /= uint32(i + 1)
+		algs[i], algs[j] = algs[j], algs[i]
+	}
+	return algs
+}
+
+// c01Concurrent asks ONE parsed image for its digest from two or three goroutines at the same time (SHA-256 for a
+// signature, SHA-1 for a deny list, ...). The statement is about "the digest the library reports" for the image,
+// whoever else is asking: each of the overlapping calls must return that algorithm over the specification's hash
+// input. The image is parsed through a reader that lets the harness fix the interleaving (sched.go): the calls
+// take turns at read granularity under a schedule that is a function of the image, so that each call is parked
+// in the middle of Hash while the others make progress, and the run is repeatable.
+func c01Concurrent(c *Ctx, cs Case, img, pre []byte, fail func(what, goObs, spec, matcher string)) {
+	k := crc32.ChecksumIEEE(img)
+	sch := newTurnSched()
+	var p *authenticode.PECOFFBinary
+	var err error
+	if pan, _ := safely(func() { p, err = authenticode.Parse(turnReader{c01Reader(img), sch}) }); pan || err != nil {
+		return // reported by the single-call oracle
+	}
+	algs := c01Algs(k >> 5)[:2+int(k>>3)%2]
+	if k&4 != 0 {
+		algs[1] = algs[0] // the same algorithm twice as well
+	}
+	// the first call is parked at its first or second read, later turns last 0..3 reads
+	quanta := []int{int(k & 1)}
+	for x := k >> 9; len(quanta) < 7; x >>= 2 {
+		quanta = append(quanta, int(x&3))
+	}
+	got := make([][]byte, len(algs))
+	pans := make([]bool, len(algs))
+	calls := make([]func(), len(algs))
+	for i := range algs {
+		i := i
+		calls[i] = func() { pans[i], _ = safely(func() { got[i] = p.Hash(algs[i]) }) }
+	}
+	parks, free := sch.run(quanta, calls...)
+	c.Class(fmt.Sprintf("concurrent-hash/goroutines=%d/overlapped=%v", len(algs), parks > 0))
+	if free {
+		c.Class("concurrent-hash/schedule-abandoned")
+	}
+	for i, h := range algs {
+		hh := h.New()
+		hh.Write(pre)
+		want := hh.Sum(nil)
+		switch {
+		case pans[i]:
+			fail(fmt.Sprintf("Hash(%v) panicked while %d calls of Hash on the one parsed image overlap (algorithms %v, schedule %v)", h, len(algs), algs, quanta), "panic", hx(want), "")
+		case !bytes.Equal(got[i], want):
+			fail(fmt.Sprintf("goroutine %d of %d asking one parsed image for its digest at the same time (algorithms %v, turns of %v reads): the %v digest reported is not that of the specification's hash input", i, len(algs), algs, quanta, h), hx(got[i]), hx(want), "")
+		}
+	}
+	want := sha256.Sum256(pre)
+	var after []byte
+	if pan, _ := safely(func() { after = p.Hash(crypto.SHA256) }); pan || !bytes.Equal(after, want[:]) {
+		fail("the digest reported after the overlapping calls on one parsed image have returned differs from the specification's", hx(after), hx(want[:]), "")
+	}
+}
+
+// laterReader is the io.ReaderAt of an image whose storage changes AFTER it was parsed: from some moment on only
+// the first `limit` bytes can be read - a file that is truncated (or a download that was cut) while it is open.
+// A read that ends there returns what is left together with io.EOF (hard: with an error that is not io.EOF,
+// a medium that fails from that offset on).
+type laterReader struct {
+	data  []byte
+	limit int
+	hard  bool
+}
+
+func (r *laterReader) ReadAt(p []byte, off int64) (int, error) {
+	d := r.data[:r.limit]
+	end := io.EOF
+	if r.hard {
+		end = errInjected
+	}
+	if off < 0 || off >= int64(len(d)) {
+		return 0, end
+	}
+	n := copy(p, d[off:])
+	if n < len(p) {
+		return n, end
+	}
+	return n, nil
+}
+
+// c01Later: the sections are read when the digest is asked for, not when the image is parsed. Whatever Hash
+// reports for a parsed image must be THE digest of that image: when the bytes cannot be read any more the only
+// other answer is "no digest" (nil), never the digest of what could still be read. Once the storage is whole again
+// the digest is reported again.
+func c01Later(c *Ctx, cs Case, img, pre []byte, fail func(what, goObs, spec, matcher string)) {
+	rd := &laterReader{data: img, limit: len(img)}
+	var p *authenticode.PECOFFBinary
+	var err error
+	if pan, _ := safely(func() { p, err = authenticode.Parse(rd) }); pan || err != nil {
+		return // reported by the single-call oracle
+	}
+	want := sha256.Sum256(pre)
+	n := len(img)
+	k := int(crc32.ChecksumIEEE(img) >> 4)
+	type cut struct {
+		limit int
+		hard  bool
+	}
+	cuts := []cut{{0, false}, {1, false}, {n / 4, false}, {n / 2, false}, {3 * n / 4, false}, {n - 9, false}, {n - 1, false}, {k % n, false}, {(k / 7) % n, true}, {n / 2, true}}
+	if dd, body := peOffsets(img); body > 0 && body <= n && dd < n {
+		// around the ends of the hashed data and of the headers' hashed ranges
+		cuts = append(cuts, cut{body - 1, false}, cut{body, false}, cut{dd, false}, cut{dd + 8, false})
+	}
+	for _, ct := range cuts {
+		if ct.limit < 0 || ct.limit >= n {
+			continue
+		}
+		rd.limit, rd.hard = ct.limit, ct.hard
+		var d []byte
+		pan, _ := safely(func() { d = p.Hash(crypto.SHA256) })
+		cl := "nil"
+		switch {
+		case pan:
+			cl = "panic"
+		case bytes.Equal(d, want[:]):
+			cl = "digest" // nothing that is hashed was cut off
+		case d != nil:
+			cl = "other"
+		}
+		c.Class("hash-after-truncation/" + cl)
+		if cl == "panic" || cl == "other" {
+			fail(fmt.Sprintf("only the first %d of %d bytes of the parsed image can still be read (read at the cut ends with %v): Hash reports a digest that is not the digest of the image", ct.limit, n, map[bool]string{false: "io.EOF", true: "an error"}[ct.hard]), cl+" "+hx(d), "nil, or "+hx(want[:]), "")
+			break
+		}
+	}
+	rd.limit, rd.hard = n, false
+	var d []byte
+	if pan, _ := safely(func() { d = p.Hash(crypto.SHA256) }); pan || !bytes.Equal(d, want[:]) {
+		fail("the image is whole again after having been unreadable in part: Hash on the parsed image does not report its digest", hx(d), hx(want[:]), "")
+	}
+}
+
+// msDigest is a second, independent rendering of "Calculating the PE Image Hash" (steps 3-14 of the Microsoft
+// Authenticode document) in Go, on the image zero-padded to 8 bytes. It reads the header fields with
+// encoding/binary only - neither the library, debug/pe nor the Lean Spec are involved - so it cross-checks the Lean
+// Spec (the oracle of this property) and is applied to the changed images too. nil when a field points outside.
+func msDigest(img []byte, h crypto.Hash) (digest []byte) {
+	defer func() {
+		if recover() != nil {
+			digest = nil
+		}
+	}()
+	b := append([]byte{}, img...)
+	for len(b)%8 != 0 {
+		b = append(b, 0)
+	}
+	le16 := func(o int) int { return int(binary.LittleEndian.Uint16(b[o:])) }
+	le32 := func(o int) int { return int(binary.LittleEndian.Uint32(b[o:])) }
+	lfanew := le32(0x3c)
+	opt := lfanew + 24
+	certDir := opt + 128 // data directory 4 of a PE32 optional header ...
+	if le16(opt) == 0x20b {
+		certDir = opt + 144 // ... and of a PE32+ one
+	}
+	checksum := opt + 64
+	sizeOfHeaders := le32(opt + 60)
+	hh := h.New()
+	hh.Write(b[:checksum])                 // 3, 4
+	hh.Write(b[checksum+4 : certDir])      // 5, 6
+	hh.Write(b[certDir+8 : sizeOfHeaders]) // 7
+	sum := sizeOfHeaders                   // 8
+	type sec struct{ ptr, size int }
+	var secs []sec
+	tab := opt + le16(lfanew+20)
+	for i := 0; i < le16(lfanew+6); i++ { // 9
+		if z := le32(tab + 40*i + 16); z != 0 {
+			secs = append(secs, sec{le32(tab + 40*i + 20), z})
+		}
+	}
+	sort.SliceStable(secs, func(i, j int) bool { return secs[i].ptr < secs[j].ptr }) // 10
+	for _, s := range secs {                                                         // 11-13
+		hh.Write(b[s.ptr : s.ptr+s.size])
+		sum += s.size
+	}
+	if end := len(b) - le32(certDir+4); end > sum { // 14
+		hh.Write(b[sum:end])
+	}
+	return hh.Sum(nil)
+}
+
 func fieldAfter(s, key string) string {
 	i := strings.Index(s, key)
 	if i < 0 {
@@ -169,6 +361,9 @@ func c01Image(c *Ctx, cs Case, img []byte, cls string, positions []int) {
 		return
 	}
 	want := sha256.Sum256(pre)
+	if ind := msDigest(img, crypto.SHA256); !bytes.Equal(ind, want[:]) {
+		c.Fail(Failure{Kind: "tie", What: "the Lean Spec's hash input and the harness's independent Go rendering of the specification's steps 3-14 give different digests for a well-formed image (one of the two oracles is wrong)", Case: cs, Model: hx(want[:]), Go: hx(ind)})
+	}
 	got, gc := goDigest(img, crypto.SHA256)
 	if gc != "ok" {
 		fail("Parse/Hash failed on a well-formed image", gc, "digest "+hx(want[:]), "")
@@ -183,6 +378,9 @@ func c01Image(c *Ctx, cs Case, img []byte, cls string, positions []int) {
 	}
 	// the hash is generic in the algorithm, and one parsed image answers any number of calls
 	c01Session(cs, img, pre, fail)
+	// ... also when the calls overlap in time, and when the image's storage shrinks after Parse
+	c01Concurrent(c, cs, img, pre, fail)
+	c01Later(c, cs, img, pre, fail)
 	// correspondence: the Impl model's pre-image
 	c.Trace()
 	mh := c.Drv.Ask("pe.hash", hx(img))
@@ -239,6 +437,11 @@ func c01Image(c *Ctx, cs Case, img []byte, cls string, positions []int) {
 		if gc2 != "ok" {
 			fail(fmt.Sprintf("Parse/Hash %s on a well-formed image (byte %d changed)", gc2, p), gc2, "", "")
 			continue
+		}
+		// the changed file is a well-formed image of its own: its digest is the specification's, computed here
+		// without the library and without the Lean Spec
+		if ind := msDigest(mut, crypto.SHA256); !bytes.Equal(g2, ind) {
+			fail(fmt.Sprintf("byte %d (%s) changed, the file is still a well-formed image: its digest differs from the specification's steps 3-14 applied to the changed file", p, f0), hx(g2), hx(ind), "")
 		}
 		changed := !bytes.Equal(g2, got)
 		c.Trace()
@@ -356,7 +559,7 @@ func alignSpec(s peSpec, j, a int) peSpec {
 
 func init() {
 	register("C01", &PropDef{
-		Rule:   "generated well-formed images over {PE32, PE32+} x e_lfanew {0x40, 0x48, 0x80, random} x 5..16 data directories x 0..8 (thorough: ..96) sections x size classes {0,1,7,8,9,512,random, >32 KiB and >64 KiB every 25th image so that io.Copy's 32 KiB reads cross part boundaries} x part boundaries aligned to 32 KiB / 512 B in the hashed stream (section ends at offset = 12 mod the read size) x header order (random permutation / file order) x gaps x SizeOfHeaders slack x trailing length {0,1,7,8,9,random} x certificate table {none, 1, 2 entries} x, for every third image, a left-over directory-entry address with size 0 when there is no table {1, inside the headers, inside the sections, end of the sections, inside the trailing data, file end, padded file end, beyond the file, 2^32-1} x 3 machine types; the repository's binaries; per image ~25 stratified byte changes (header fields, checksum, directory entry, section table, slack, section boundaries, gaps, tail, certificate table); a changed image that is still well-formed and that Parse rejects counts as outside the domain only when debug/pe.NewFile itself rejects it, and a changed directory-entry byte is judged like any other excluded byte. Every image is also parsed once and asked for its digest six times on that one object, running through SHA-1/256/384/512 in an order chosen by the image and then repeating the first two; every answer is compared with that algorithm over the specification's hash input, every other returned slice is overwritten by the caller before the next call, and the remaining ones are held and must not change. Half of the images (by a checksum of their bytes) are read through a conforming io.ReaderAt that reports io.EOF together with the read that reaches the end of the file. Non-trivial: image longer than 256 bytes / every flip; distinct = distinct specs and (image, position, mask).",
+		Rule:   "generated well-formed images over {PE32, PE32+} x e_lfanew {0x40, 0x48, 0x80, random} x 5..16 data directories x 0..8 (thorough: ..96) sections x size classes {0,1,7,8,9,512,random, >32 KiB and >64 KiB every 25th image so that io.Copy's 32 KiB reads cross part boundaries} x part boundaries aligned to 32 KiB / 512 B in the hashed stream (section ends at offset = 12 mod the read size) x header order (random permutation / file order) x gaps x SizeOfHeaders slack x trailing length {0,1,7,8,9,random} x certificate table {none, 1, 2 entries} x, for every third image, a left-over directory-entry address with size 0 when there is no table {1, inside the headers, inside the sections, end of the sections, inside the trailing data, file end, padded file end, beyond the file, 2^32-1} x 3 machine types; the repository's binaries; per image ~25 stratified byte changes (header fields, checksum, directory entry, section table, slack, section boundaries, gaps, tail, certificate table); a changed image that is still well-formed and that Parse rejects counts as outside the domain only when debug/pe.NewFile itself rejects it, and a changed directory-entry byte is judged like any other excluded byte. Every image is also parsed once and asked for its digest six times on that one object, running through SHA-1/256/384/512 in an order chosen by the image and then repeating the first two; every answer is compared with that algorithm over the specification's hash input, every other returned slice is overwritten by the caller before the next call, and the remaining ones are held and must not change. Every image is also parsed once through a caller-supplied io.ReaderAt that fixes the interleaving of goroutines (sched.go) and asked for its digest by two or three goroutines AT THE SAME TIME (algorithms, possibly the same one twice, chosen by the image): the calls take turns at read granularity - the first call is parked inside its first or second read, later turns last 0..3 reads, a function of the image - and every one of the overlapping calls, and a call after them, must return its algorithm over the specification's hash input. And every image is parsed through a reader whose storage shrinks AFTER Parse (only the first L bytes remain readable, the read at the cut ending with io.EOF or with another error; L in {0, 1, n/4, n/2, 3n/4, n-9, n-1, two positions chosen by the image, the end of the hashed data and the one before, both ends of the certificate-table directory entry}): whatever Hash then reports must be nil or the specification digest of the image that was parsed (never the digest of the readable part), and the digest is reported again once the storage is whole. Half of the images (by a checksum of their bytes) are read through a conforming io.ReaderAt that reports io.EOF together with the read that reaches the end of the file. Non-trivial: image longer than 256 bytes / every flip; distinct = distinct specs and (image, position, mask).",
 		Assume: []string{"debug/pe.NewFile accepts the generated headers (machine type from its whitelist, no symbol table, no relocations, section names not starting with '/')", "SHA-256 does not collide on the pre-images compared"},
 		Eval:   c01Eval, Gen: c01Gen,
 	})
